@@ -56,16 +56,17 @@ Theorem C05_method_independent_t_D : forall thr gd ms f, all_timed f -> heights 
 Proof. exact method_independent. Qed.
 Print Assumptions C05_method_independent_t_D.
 
-(* Documented semantics, stage 1 (-F / -N / -D): for every filter table, both instrumentation shapes and
-   every call forest (each call at least one tick, nesting within --max-stack, -D > 0) the recorded trace
-   equals the tree-recursive specification [sel]: a -N function hides itself and everything it calls; with
-   -F only the -F functions and what they call are shown; -D counts nesting levels from the outermost shown
-   function and afresh inside a -F function. *)
-Theorem C05_matches_documented_F_N_D : forall flt fm gd ms sh, 0 < gd -> forall f,
-  all_timed f -> all_positive f -> heights f <= ms ->
-  out (fst (exec (fcfg flt fm gd ms sh) (flat_forest f) (init, []))) = flat_map (sel flt gd (x0 fm gd) 0) f.
+(* Documented semantics, stage 1 (-F / -N / -D / -t together): for every filter table, threshold, both
+   instrumentation shapes and every call forest (clock readings non-decreasing inside a call, nesting within
+   --max-stack, -D > 0) the recorded trace equals the tree-recursive specification [sel]: a -N function hides
+   itself and everything it calls; with -F only the -F functions and what they call are shown; -D counts
+   nesting levels from the outermost shown function and afresh inside a -F function; -t hides a selected call
+   that did not run longer than the threshold unless one of its callees is shown. *)
+Theorem C05_matches_documented_F_N_D_t : forall flt fm gd thr ms sh, 0 < gd -> forall f,
+  all_timed f -> heights f <= ms ->
+  out (fst (exec (fcfg flt fm gd thr ms sh) (flat_forest f) (init, []))) = flat_map (sel flt gd thr (x0 fm gd) 0) f.
 Proof. exact run_forest_sel. Qed.
-Print Assumptions C05_matches_documented_F_N_D.
+Print Assumptions C05_matches_documented_F_N_D_t.
 
 (* ... and is properly nested: every recorded call's recorded ancestors are present *)
 Theorem C05_nested_output_t_D : forall thr gd ms sh f, all_timed f -> heights f <= ms ->
